@@ -579,6 +579,10 @@ B('AL-frame-other-different-union', ['C06'], 'frame.py', 'Frame._ufunc_binary_op
   'other_array = other.reindex(columns, own_index=True).values', 'other_array = other.reindex(other._index.union(self._columns), own_index=True).values', 'E.align', 'Frame._ufunc_binary_operator')
 B('AL-operands-swapped', ['C06'], 'series.py', 'Series._ufunc_binary_operator',
   '                values=values,\n                other=other,', '                values=other,\n                other=values,', 'E.align', 'Series._ufunc_binary_operator')
+B('AX-reindex-columns-vs-index', ['C06'], 'frame.py', 'Frame.reindex',
+  'if check_equals and self._columns.equals(columns):', 'if check_equals and self._index.equals(columns):', 'I.axis-crossing', 'Frame.reindex')
+B('AX-correspondence-crossed', ['C06'], 'frame.py', 'Frame.reindex',
+  'columns_ic = IndexCorrespondence.from_correspondence(self._columns, columns)', 'columns_ic = IndexCorrespondence.from_correspondence(self._index, columns)', 'I.axis-crossing', 'Frame.reindex')
 N('AL-rename-union-local', ['C06'], 'series.py', 'Series._ufunc_binary_operator',
   '                index = self._index.union(other._index)\n                # now need to reindex the Series\n                values = self.reindex(index, own_index=True, check_equals=False).values\n                other = other.reindex(index, own_index=True, check_equals=False).values',
   '                union = self._index.union(other._index)\n                index = union\n                values = self.reindex(union, own_index=True, check_equals=False).values\n                other = other.reindex(union, own_index=True, check_equals=False).values')
@@ -653,5 +657,22 @@ B('Q-level-wrong-axis', ['C19'], 'quilt.py', 'Quilt._extract',
 N('Q-rename-component', ['C19'], 'quilt.py', 'Quilt._extract_array',
   '            sel_component = sel[self._axis_map.index._loc_to_iloc(HLoc[key])]\n\n            if self._axis == 0:\n                component = self._bus.loc[key]._extract_array(sel_component, opposite_key)',
   '            part_mask = sel[self._axis_map.index._loc_to_iloc(HLoc[key])]\n            sel_component = part_mask\n\n            if self._axis == 0:\n                component = self._bus.loc[key]._extract_array(part_mask, opposite_key)')
+
+# ---------------------------------------------------------------------------------- bus reader (C17)
+B('BR-labels-from-live-mask', ['C17'], 'bus.py', 'Bus._update_series_cache_iloc',
+  'labels=(label for label, f in targets.items() if f is FrameDeferred),', 'labels=(label for label, loaded in zip(targets._index, self._loaded[key]) if not loaded),', 'I.bus-reader-consumer', '_update_series_cache_iloc')
+B('BR-filter-differs', ['C17'], 'bus.py', 'Bus._update_series_cache_iloc',
+  'labels=(label for label, f in targets.items() if f is FrameDeferred),', 'labels=(label for label, f in targets.items() if f is not None),', 'I.bus-reader-consumer', '_update_series_cache_iloc')
+N('BR-rename-gen-vars', ['C17'], 'bus.py', 'Bus._update_series_cache_iloc',
+  'labels=(label for label, f in targets.items() if f is FrameDeferred),', 'labels=(lb for lb, fr in targets.items() if fr is FrameDeferred),')
+
+# ---------------------------------------------------------------------------------- pivot (C20)
+B('PV-reindex-guard-removed', ['C20'], 'frame.py', 'Frame.pivot',
+  '            if index_depth > 1 and not f.index.equals(index_inner):\n                f = f.reindex(index_inner, own_index=True, check_equals=False) #pragma: no cover\n', '', 'I.pivot-positional', 'Frame.pivot')
+B('PV-concat-without-index', ['C20'], 'frame.py', 'Frame.pivot',
+  '            f = self.__class__.from_concat(sub_frames,\n                    index=index_inner,', '            f = self.__class__.from_concat(sub_frames,', 'I.pivot-positional', 'Frame.pivot')
+N('PV-guard-split', ['C20'], 'frame.py', 'Frame.pivot',
+  '            if index_depth > 1 and not f.index.equals(index_inner):\n                f = f.reindex(index_inner, own_index=True, check_equals=False) #pragma: no cover\n',
+  '            if index_depth > 1:\n                if not f.index.equals(index_inner):\n                    f = f.reindex(index_inner, own_index=True, check_equals=False)\n')
 
 VARIANTS = V
